@@ -113,7 +113,7 @@ pub fn sequence_component(input: Input<'_>) -> ParserResult<'_, SequenceComponen
     skip_ws_and_comments(alt((
         map(
             preceded(
-                tag(COMPONENTS_OF),
+                keyword_pair(COMPONENTS_OF),
                 skip_ws_and_comments(alt((
                     into_inner(recognize(separated_list1(tag(".&"), identifier))),
                     type_reference,
